@@ -67,6 +67,24 @@ def listing(root):
 def quiet_identify(path):
     from fickling import polyglot
 
+    # the documented flags only add printing: the list that comes back is the same
+    with contextlib.redirect_stdout(io.StringIO()), contextlib.redirect_stderr(io.StringIO()):
+        plain = polyglot.identify_pytorch_file_format(path)
+        plain = list(plain) if plain is not None else plain
+        for kw in ({"print_results": True}, {"print_properties": True}, {"print_properties": True, "print_results": True}):
+            other = polyglot.identify_pytorch_file_format(path, **kw)
+            if (list(other) if other is not None else other) != plain:
+                raise FlagsChangeResult(f"identify_pytorch_file_format(path) gives {plain} but with {kw} it gives {other}")
+    return plain
+
+
+class FlagsChangeResult(Exception):
+    pass
+
+
+def _quiet_identify_plain(path):
+    from fickling import polyglot
+
     with contextlib.redirect_stdout(io.StringIO()), contextlib.redirect_stderr(io.StringIO()):
         return polyglot.identify_pytorch_file_format(path)
 
@@ -311,7 +329,7 @@ COMBINES = (
 )
 
 
-def check_polyglot(kind_a, kind_b, scratch, name_given=True):
+def check_polyglot(kind_a, kind_b, scratch, name_given=True, same_basename=False):
     from fickling import polyglot
 
     reset_pickle_bindings()
@@ -319,6 +337,12 @@ def check_polyglot(kind_a, kind_b, scratch, name_given=True):
     os.makedirs(os.path.join(scratch.path, "in"))
     a = os.path.join(scratch.path, "in", f"first_{kind_a}.bin")
     b = os.path.join(scratch.path, "in", f"second_{kind_b}.bin")
+    if same_basename:
+        # two inputs called the same, in different directories
+        os.makedirs(os.path.join(scratch.path, "in", "one"))
+        os.makedirs(os.path.join(scratch.path, "in", "two"))
+        a = os.path.join(scratch.path, "in", "one", "model.bin")
+        b = os.path.join(scratch.path, "in", "two", "model.bin")
     make_real(kind_a, a, 1)
     make_real(kind_b, b, 2)
     sa, sb = sha(a), sha(b)
@@ -451,11 +475,20 @@ def check_polyglot_fault(kind_a, kind_b, point, k, scratch):
 
 
 def replay(case):
+    try:
+        return _replay(case)
+    except FlagsChangeResult as e:
+        return Failure(case, str(e))
+
+
+def _replay(case):
     if case.get("op") == "fault":
         with Scratch("c17") as scratch:
             m = check_polyglot_fault(case["a"], case["b"], case["point"], case["k"], scratch)[0]
             return Failure(case, m) if m else None
     with Scratch("c17") as scratch:
+        if case["op"] == "flags":
+            return _flags_replay(scratch)
         if case["op"] == "synthetic":
             p = os.path.join(scratch.path, "syn.bin")
             make_synthetic(p, case["subset"], case["placement"], case["junk"], case["trailing"])
@@ -478,7 +511,7 @@ def replay(case):
         if case["op"] == "rewrite":
             m = check_rewrite(scratch, case["present"], case["swapped"])
             return Failure(case, f"rewrite in place {case}: {m}") if m else None
-        m = check_polyglot(case["a"], case["b"], scratch, case.get("name_given", True))[0]
+        m = check_polyglot(case["a"], case["b"], scratch, case.get("name_given", True), case.get("same_basename", False))[0]
         return Failure(case, m) if m else None
 
 
@@ -493,6 +526,28 @@ def shards(tier):
 
 
 def run_shard(spec, seed):
+    try:
+        return _run_shard(spec, seed)
+    except FlagsChangeResult as e:
+        res = ShardResult()
+        res.failures.append(Failure({"op": "flags"}, str(e)))
+        return res
+
+
+def _flags_replay(scratch):
+    for kind in ("zip", "jit", "legacy", "mar"):
+        p = os.path.join(scratch.path, "real.bin")
+        make_real(kind, p, 0)
+        try:
+            quiet_identify(p)
+        except FlagsChangeResult as e:
+            return Failure({"op": "flags"}, str(e))
+        finally:
+            os.remove(p)
+    return None
+
+
+def _run_shard(spec, seed):
     import torch
 
     torch.set_num_threads(1)
@@ -582,13 +637,15 @@ def run_shard(spec, seed):
                     break
             res.exhaustive = True
         elif spec["kind"] == "pairs":
-            pairs = list(itertools.product(REAL_KINDS, REAL_KINDS, (True, False)))
-            for i, (a, b, ng) in enumerate(pairs):
+            pairs = [(a, b, ng, False) for a, b, ng in itertools.product(REAL_KINDS, REAL_KINDS, (True, False))]
+            pairs += [(a, b, True, True) for a, b in (("zip", "jit"), ("jit", "zip"), ("mar", "legacy"), ("legacy", "mar"),
+                                                     ("mar", "legacy_tar"), ("legacy_tar", "mar"))]  # fmt: skip
+            for i, (a, b, ng, sb) in enumerate(pairs):
                 if i % spec["nparts"] != spec["part"]:
                     continue
-                m, outcome, fa, fb = check_polyglot(a, b, scratch, ng)
+                m, outcome, fa, fb = check_polyglot(a, b, scratch, ng, sb)
                 made = outcome[0] == "returned" and bool(outcome[1])
-                case = {"op": "pair", "a": a, "b": b, "name_given": ng}
+                case = {"op": "pair", "a": a, "b": b, "name_given": ng, "same_basename": sb}
                 res.note(None, not made, klass=["polyglot-made" if made else f"no-polyglot-{outcome[0]}"],
                          sample={**case, "formats": [fa, fb], "outcome": outcome[0]})  # fmt: skip
                 if m:
